@@ -55,6 +55,8 @@ theorem foldl_pres {α β : Type} (π : Stack → β) (f : Stack → α → Stac
 @[simp] theorem base_with_found_refreshLog (s : Stack) (x : TStore SvcKey) (y : List (Addr × SvcKey × Nat × Nat)) : base { s with found := x, refreshLog := y } = base s := rfl
 @[simp] theorem base_with_subLog (s : Stack) (x : List (Addr × Nat × List Eventgroup)) : base { s with subLog := x } = base s := rfl
 @[simp] theorem base_with_findLog (s : Stack) (x : List (Nat × Nat)) : base { s with findLog := x } = base s := rfl
+@[simp] theorem base_with_findMarks (s : Stack) (x : List (Nat × Nat)) : base { s with findMarks := x } = base s := rfl
+@[simp] theorem base_markFind (s : Stack) (n : Nat) : base (s.markFind n) = base s := rfl
 @[simp] theorem base_with_offLog (s : Stack) (x : List (Nat × OEv × Nat)) : base { s with offLog := x } = base s := rfl
 @[simp] theorem base_logOffer (s : Stack) (i : Nat) (e : OEv) : base (s.logOffer i e) = base s := rfl
 @[simp] theorem base_with_subDup (s : Stack) (x : Bool) : base { s with subDup := x } = base s := rfl
